@@ -191,7 +191,8 @@ def parseOp (toks : List String) : Option Op :=
     | some (ty, "I" :: r2) =>
       match parseJT (r2.length + 1) r2 with
       | some (j, []) =>
-        some { cfg := { fromString := kvNat cfgToks "fs" = 1, fromArray := kvNat cfgToks "fa" = 1 }, ty := ty, input := j }
+        some { cfg := { fromString := kvNat cfgToks "fs" = 1, fromArray := kvNat cfgToks "fa" = 1,
+                        canonical := kvStr cfgToks "key" = "header" }, ty := ty, input := j }
       | _ => none
     | _ => none
   | _ => none
@@ -242,7 +243,8 @@ def runLine (r : Report) (sec : Nat) (l : Line) : Report :=
     let mut r := { r with ops := r.ops + 1 }
     let res := unmarshal op.cfg op.ty op.input
     r := r.addCover (resultLabel res)
-    r := r.addCover (if op.cfg.fromArray then "mode-form" else if op.cfg.fromString then "mode-fromstring" else "mode-json")
+    r := r.addCover (if op.cfg.canonical then "mode-header" else if op.cfg.fromArray then "mode-form"
+                     else if op.cfg.fromString then "mode-fromstring" else "mode-json")
     for f in dedup (tyFeatures op.ty) do r := r.addCover f
     let impl := joinSp l.obs
     match l.obs with
